@@ -136,6 +136,7 @@ type cellSpec struct {
 	Obj  int    `json:"obj"`  // runtime class of the object
 	T    *tref  `json:"type,omitempty"`
 	K    int    `json:"k"` // class whose helper is used (dispatch cells), -1 otherwise
+	Pass int    `json:"pass,omitempty"` // dispatch cells run twice per script: classes ascending (0), then descending (1)
 }
 
 func (c cellSpec) id(g *graph) string {
@@ -149,6 +150,9 @@ func (c cellSpec) id(g *graph) string {
 	}
 	if c.K >= 0 {
 		s += fmt.Sprintf("/k%d", c.K)
+	}
+	if c.Pass > 0 {
+		s += fmt.Sprintf("/p%d", c.Pass)
 	}
 	return s
 }
@@ -182,6 +186,9 @@ var dispatchCons = []struct {
 	{"static", false, true},         // helper in K: static::zs() (instance method)
 	{"self-static-ctx", false, true}, // static helper in K called as Obj::h(): self::zs()
 	{"static-static-ctx", false, true},
+	{"call-fn", false, false},          // function f($x) { return $x->zm(); }: one call site for every object
+	{"static-chain", false, true},      // Obj::hc_K(): static::hm_K() (only K defines hm_K) -> "L<" . static::zs() . ">"
+	{"static-chain-inst", false, true}, // $o->hci_K(): the same 2-level static:: chain from an instance method
 }
 
 func (g *graph) cells(throwable bool) []cellSpec {
@@ -212,6 +219,15 @@ func (g *graph) cells(throwable bool) []cellSpec {
 			}
 		}
 	}
+	// second pass: every dispatch probe again, classes in descending order, in the same script -
+	// the helper bodies / f_call are single source locations shared by all objects of the graph
+	for i := len(out) - 1; i >= 0; i-- {
+		if out[i].T == nil {
+			c := out[i]
+			c.Pass = 1
+			out = append(out, c)
+		}
+	}
 	return out
 }
 
@@ -235,6 +251,14 @@ func (g *graph) expect(c cellSpec, n names) string {
 		d, m = g.definer(c.K), "zs"
 	case "static", "static-static-ctx":
 		d, m = g.definer(c.Obj), "zs"
+	case "call-fn":
+		d = g.definer(c.Obj)
+	case "static-chain", "static-chain-inst":
+		d = g.definer(c.Obj)
+		if d < 0 {
+			return "none"
+		}
+		return "L<" + n.c(d) + "::zs>"
 	}
 	if d < 0 {
 		return "none"
@@ -306,6 +330,9 @@ func (g *graph) source(n names, throwable bool, cells []cellSpec) string {
 		fmt.Fprintf(&sb, "  public function hl_%s() { return static::zs(); }\n", n.c(c))
 		fmt.Fprintf(&sb, "  public static function hss_%s() { return self::zs(); }\n", n.c(c))
 		fmt.Fprintf(&sb, "  public static function hsl_%s() { return static::zs(); }\n", n.c(c))
+		fmt.Fprintf(&sb, "  public static function hm_%s() { return \"L<\" . static::zs() . \">\"; }\n", n.c(c))
+		fmt.Fprintf(&sb, "  public static function hc_%s() { return static::hm_%s(); }\n", n.c(c), n.c(c))
+		fmt.Fprintf(&sb, "  public function hci_%s() { return static::hm_%s(); }\n", n.c(c), n.c(c))
 		if g.Parent[c] < 0 {
 			sb.WriteString("  public function ht() { return $this->zm(); }\n")
 			for _, t := range g.types() {
@@ -315,6 +342,7 @@ func (g *graph) source(n names, throwable bool, cells []cellSpec) string {
 		}
 		sb.WriteString("}\n")
 	}
+	sb.WriteString("function f_call($x) { return $x->zm(); }\n")
 	mk := func(c int) string {
 		if throwable {
 			return fmt.Sprintf("new %s(\"msg\")", n.c(c))
@@ -361,6 +389,12 @@ func (g *graph) source(n names, throwable bool, cells []cellSpec) string {
 			body = fmt.Sprintf("$r = %s::hss_%s();", n.c(c.Obj), n.c(c.K))
 		case "static-static-ctx":
 			body = fmt.Sprintf("$r = %s::hsl_%s();", n.c(c.Obj), n.c(c.K))
+		case "call-fn":
+			body = fmt.Sprintf("$o = %s; $r = f_call($o);", o)
+		case "static-chain":
+			body = fmt.Sprintf("$r = %s::hc_%s();", n.c(c.Obj), n.c(c.K))
+		case "static-chain-inst":
+			body = fmt.Sprintf("$o = %s; $r = $o->hci_%s();", o, n.c(c.K))
 		}
 		fmt.Fprintf(&sb, "echo \"@@%s@@\"; try { %s echo $r; } catch (Throwable $e) { echo \"E|\", get_class($e), \"|\", $e->getMessage(); }\n", c.id(g), body)
 	}
